@@ -19,7 +19,7 @@ class C08(Spec):
             "into a Conc.cmd term (gen/UiProg.v, regenerated on every run) and Coq re-decides lock_check on it by vm_compute; the "
             "soundness theorems (check_sound, safety, progress) then give lock ownership at every state access and frame, mutual "
             "exclusion and progress for ALL interleavings. (1b) the fork-join fan-outs of pub, splicer and client (functions that start "
-            "goroutine literals and Wait): tools/xlate -fanout extracts, from the CURRENT source, the reads and writes each goroutine "
+            "goroutine literals and Wait; also the JOIN: every goroutine calls Done exactly once on every path and as many were Added - fanouts_join, fanouts_join_completes): tools/xlate -fanout extracts, from the CURRENT source, the reads and writes each goroutine "
             "makes to memory shared with its siblings (gen/FanOut.v; a goroutine started in a loop is instantiated for two distinct "
             "iterations), Coq re-decides fj_check, and fj_no_race / fj_deterministic give: no data race, the same memory under EVERY "
             "interleaving. (2) observation: stress runs of the real ui.State with one goroutine per "
@@ -48,7 +48,12 @@ class C08(Spec):
                            stdout=subprocess.PIPE, stderr=subprocess.STDOUT, text=True)
         if p.returncode != 0:
             raise Broken("correspondence", "translator tools/xlate does not build", p.stdout[-2000:])
-        gen = os.path.join(COQ, "gen", "UiProg.v")
+        # the generated models of /repo live in coq/gen (committed, so that a reader sees what was proved about the pinned tree); a run
+        # on another tree (VERIF_REPO: seeded changes, mutants) generates into its scratch directory and leaves them alone
+        from common import REPO
+        gendir = os.path.join(COQ, "gen") if REPO == "/repo" else os.path.join(scratch.work, "gen")
+        os.makedirs(gendir, exist_ok=True)
+        gen = os.path.join(gendir, "UiProg.v")
         os.makedirs(os.path.dirname(gen), exist_ok=True)
         p = subprocess.run([xl, os.path.join(scratch.src, "ui", "ui.go"), gen], stdout=subprocess.PIPE, stderr=subprocess.STDOUT, text=True)
         if p.returncode != 0:
@@ -58,7 +63,7 @@ class C08(Spec):
         report.extra["translated_functions"] = names
         report.extra["goroutine_literals"] = src.count("(CGo ")
         report.extra["unknown_statements"] = src.count("CUnknown")
-        q = subprocess.run(["timeout", "300", "coqc", "-R", "theories", "Servitor", "-R", "facts", "Servitor.Facts", "gen/UiProg.v"], cwd=COQ,
+        q = subprocess.run(["timeout", "300", "coqc", "-R", "theories", "Servitor", "-R", "facts", "Servitor.Facts", gen], cwd=COQ,
                            stdout=subprocess.PIPE, stderr=subprocess.STDOUT, text=True)
         m = re.search(r"=\s*\[([^\]]*)\]", q.stdout)
         verdicts = [v.strip() == "true" for v in m.group(1).split(";")] if m else []
@@ -77,23 +82,27 @@ class C08(Spec):
         srcs = sorted(glob.glob(os.path.join(scratch.src, "pub", "*.go")) + glob.glob(os.path.join(scratch.src, "splicer", "*.go")) +
                       glob.glob(os.path.join(scratch.src, "client", "*.go")))
         srcs = [f for f in srcs if not f.endswith("_test.go") and not os.path.basename(f).startswith("verif_")]
-        fgen = os.path.join(COQ, "gen", "FanOut.v")
+        fgen = os.path.join(gendir, "FanOut.v")
         pf = subprocess.run([xl, "-fanout", fgen] + srcs, stdout=subprocess.PIPE, stderr=subprocess.STDOUT, text=True)
         if pf.returncode != 0:
             raise Broken("correspondence", "translator failed on the fan-out sources", pf.stdout[-2000:])
         fnames = pf.stdout.split()
-        qf = subprocess.run(["timeout", "300", "coqc", "-R", "theories", "Servitor", "-R", "facts", "Servitor.Facts", "gen/FanOut.v"], cwd=COQ,
+        qf = subprocess.run(["timeout", "300", "coqc", "-R", "theories", "Servitor", "-R", "facts", "Servitor.Facts", fgen], cwd=COQ,
                             stdout=subprocess.PIPE, stderr=subprocess.STDOUT, text=True)
         mf = re.search(r"=\s*\[([^\]]*)\]", qf.stdout)
         fverdicts = [v.strip() == "true" for v in mf.group(1).split(";")] if mf else []
         report.extra["fanouts"] = dict(zip(fnames, fverdicts))
-        report.extra["generated_theorems_fanout"] = ["fanouts_understood", "fanouts_disjoint", "fanouts_race_free"]
+        report.extra["generated_theorems_fanout"] = ["fanouts_understood", "fanouts_disjoint", "fanouts_join", "fanouts_join_completes", "fanouts_race_free"]
         if not fnames:
             fanout_broken = "the translator found no fan-out in pub/splicer/client (the WaitGroup pattern is gone or changed shape)"
-        elif qf.returncode != 0 or qf.stdout.count("Closed under the global context") < 2 or "Axioms:" in qf.stdout:
+        elif qf.returncode != 0 or qf.stdout.count("Closed under the global context") < 4 or "Axioms:" in qf.stdout:
             badf = [n for n, v in zip(fnames, fverdicts) if not v]
-            fanout_broken = ("fanouts_disjoint / fanouts_understood (gen/FanOut.v) no longer check; fan-outs whose goroutines conflict: %s; %s"
-                             % (", ".join(badf) or "none (a construct was not understood)", qf.stdout[-600:].replace("\n", " ")))
+            allv = re.findall(r"=\s*\[([^\]]*)\]", qf.stdout)
+            jverd = [v.strip() == "true" for v in allv[1].split(";")] if len(allv) > 1 else []
+            badj = [n for n, v in zip(fnames, jverd) if not v]
+            fanout_broken = ("fanouts_disjoint / fanouts_join / fanouts_understood (gen/FanOut.v) no longer check; fan-outs whose goroutines conflict: %s; "
+                             "fan-outs whose join is not exact (a goroutine that does not call Done exactly once on every path, or an Add that does not match): %s; %s"
+                             % (", ".join(badf) or "none", ", ".join(badj) or "none", qf.stdout[-600:].replace("\n", " ")))
             log("C08:", fanout_broken)
         # ---- (1c) self-test of the fan-out translator: known disjoint and known racy patterns must get their verdicts
         selfsrc = os.path.join(scratch.work, "fanout_cases.go")
@@ -106,8 +115,13 @@ class C08(Spec):
         ms = re.search(r"=\s*\[([^\]]*)\]", qs.stdout)
         sverd = [v.strip() == "true" for v in ms.group(1).split(";")] if ms else []
         wrong = [n for n, v in zip(snames, sverd) if ("_OK_" in n) != v]
+        alls = re.findall(r"=\s*\[([^\]]*)\]", qs.stdout)
+        sjoin = [v.strip() == "true" for v in alls[1].split(";")] if len(alls) > 1 else []
+        wrong += [n + " (join)" for n, v in zip(snames, sjoin) if ("JOINBAD" in n) == v]
+        if len(sjoin) != len(snames):
+            wrong.append("join verdicts missing")
         report.extra["translator_selftest"] = {"patterns": len(snames), "wrong": wrong}
-        if ps.returncode != 0 or len(snames) < 9 or len(sverd) != len(snames) or wrong:
+        if ps.returncode != 0 or len(snames) < 15 or len(sverd) != len(snames) or wrong:
             raise Broken("correspondence", "self-test of tools/xlate -fanout failed: wrong verdicts for %s" % (wrong or "the whole file"), (ps.stdout + qs.stdout)[-1500:])
         # ---- (2) observation
         tooldir = os.path.join(scratch.dir, "hookbin")
@@ -195,7 +209,7 @@ class C08(Spec):
                 cases.append(c10.SPEC.rand_case(rng))
             else:
                 cases.append(c11.SPEC.rand_case(rng))
-        b1 = Batch("c08-fanout", cases, env={"VERIF_CASE_TIMEOUT": "60"}, timeout=900, correspondence="pub/splicer fan-outs under the race detector")
+        b1 = Batch("c08-fanout", cases, env={"VERIF_CASE_TIMEOUT": "20", "VERIF_MAX_HANGS": "2"}, timeout=900, correspondence="pub/splicer fan-outs under the race detector")
         b1.parallel = False
         base = netgen.pick_port_base(rng)
         ncases = []
@@ -207,7 +221,7 @@ class C08(Spec):
                 ncases.append(c09.case_of(c09.SPEC.post_world(rng, base)))
             else:
                 ncases.append(c10.SPEC.remote_world(rng, base).case())
-        b2 = Batch("c08-fanout-net", ncases, config="[network]\ntimeout_seconds = 2\n", env={"VERIF_SIM_PORT_BASE": str(base), "VERIF_CASE_TIMEOUT": "60"},
+        b2 = Batch("c08-fanout-net", ncases, config="[network]\ntimeout_seconds = 2\n", env={"VERIF_SIM_PORT_BASE": str(base), "VERIF_CASE_TIMEOUT": "30", "VERIF_MAX_HANGS": "2"},
                    timeout=900, correspondence="client/pub fetch fan-outs against the simulator under the race detector")
         b2.parallel = False
         # this run looks for data races only: results are compared by the properties that own these operations
